@@ -37,6 +37,8 @@ func checkC01(ctx *Ctx, r *Report) {
 	c01MapOnlyWithoutProperties(ctx, r)
 	c01GoFieldTypeOverride(ctx, r)
 	c01StrictEmptyList(ctx, r)
+	c01CueDefaultBranch(ctx, r)
+	c01OpenAPIWidestDefault(ctx, r)
 	c01LoopLocalResult(ctx, r)
 }
 
@@ -1761,4 +1763,131 @@ func c01StrictEmptyList(ctx *Ctx, r *Report) {
 	}
 	r.Check(assignedOutside, "skeleton/strict-empty-list", "strict decoder list branch initialises the target", token.NoPos, "the target is set to an empty list outside the per-element loop",
 		ts.file[recStrict.define]+": a list of objects is only built by appending inside the per-element loop: for `[]` the target stays nil and is re-encoded as null — {\"items\": []} does not round-trip through UnmarshalJSONStrict (the standard decoder gives [])")
+}
+
+// c01CueDefaultBranch: the CUE front-end removes the default from the branches of a union when it merely designates one
+// of the values another branch allows (`string | *"abc"`). A default of another kind (`int | *"auto"`) is a branch of
+// its own: the statement that skips the default's branch must be conditioned on a subsumption test against the other
+// branches, otherwise the generated type cannot hold a value the schema accepts.
+func c01CueDefaultBranch(ctx *Ctx, r *Report) {
+	fn := ctx.LookupMethod("internal/simplecue", "generator", "declareDisjunction")
+	fd, p := ctx.DeclOf(fn)
+	if fd == nil {
+		r.Undecided("anchor lost: simplecue.generator.declareDisjunction")
+		return
+	}
+	info := p.TypesInfo
+	parents := parentMap(fd)
+	subsumes := func(e ast.Node) bool {
+		found := false
+		ast.Inspect(e, func(q ast.Node) bool {
+			c, ok := q.(*ast.CallExpr)
+			if !ok {
+				return true
+			}
+			if sel, ok := c.Fun.(*ast.SelectorExpr); ok && sel.Sel.Name == "Subsume" {
+				found = true
+			}
+			if f := callee(info, c); f != nil && f.Pkg() == p.Types {
+				if hfd, _ := ctx.DeclOf(f); hfd != nil && hfd.Body != nil {
+					ast.Inspect(hfd.Body, func(z ast.Node) bool {
+						if s, ok := z.(*ast.SelectorExpr); ok && s.Sel.Name == "Subsume" {
+							found = true
+						}
+						return true
+					})
+				}
+			}
+			return true
+		})
+		return found
+	}
+	n := 0
+	ast.Inspect(fd.Body, func(m ast.Node) bool {
+		br, ok := m.(*ast.BranchStmt)
+		if !ok || br.Tok != token.CONTINUE {
+			return true
+		}
+		// a `continue` under a test of equality with the default
+		underDefault, underSubsume := false, false
+		for _, ce := range enclosingConds(parents, br) {
+			cs := exprString(ce.stmt.Cond)
+			if strings.Contains(cs, "Equals(") && strings.Contains(strings.ToLower(cs), "default") {
+				underDefault = true
+			}
+			if subsumes(ce.stmt.Cond) {
+				underSubsume = true
+			}
+		}
+		if !underDefault {
+			return true
+		}
+		n++
+		r.Check(underSubsume, "frontier/cue-default-branch-subsumed", "simplecue.declareDisjunction skips the default's branch", br.Pos(), "only when another branch subsumes it",
+			"declareDisjunction drops the branch that equals the default without asking whether another branch allows that value: for `int | *\"auto\"` the field becomes a plain int64 — the document {\"v\": \"auto\"}, which the schema accepts (it is the default), does not decode")
+		return true
+	})
+	r.Count("branches skipped as 'the default' by the CUE front-end", n)
+	r.Floor("branches skipped as 'the default' by the CUE front-end", 1)
+}
+
+// c01OpenAPIWidestDefault: OpenAPI `number` / `integer` without a `format` are not limited to the narrow formats: the
+// default clause of the walkers' switch on the format must build the widest kind of the family (float64 / int64). A
+// narrower default loses digits of documents the schema accepts.
+func c01OpenAPIWidestDefault(ctx *Ctx, r *Report) {
+	p := ctx.Pkg("internal/openapi")
+	if p == nil {
+		return
+	}
+	info := p.TypesInfo
+	n := 0
+	for _, w := range []struct{ fn, widest string }{{"walkNumber", "KindFloat64"}, {"walkInteger", "KindInt64"}} {
+		var fd *ast.FuncDecl
+		for _, file := range p.Syntax {
+			for _, d := range file.Decls {
+				if x, ok := d.(*ast.FuncDecl); ok && x.Name.Name == w.fn {
+					fd = x
+				}
+			}
+		}
+		if fd == nil {
+			r.Undecided("anchor lost: openapi.%s", w.fn)
+			continue
+		}
+		ast.Inspect(fd.Body, func(m ast.Node) bool {
+			sw, ok := m.(*ast.SwitchStmt)
+			if !ok || sw.Tag == nil || !strings.HasSuffix(exprString(sw.Tag), ".Format") {
+				return true
+			}
+			hasDefault := false
+			for _, st := range sw.Body.List {
+				cc := st.(*ast.CaseClause)
+				if cc.List != nil {
+					continue
+				}
+				hasDefault = true
+				n++
+				kinds := ""
+				for _, s := range cc.Body {
+					ast.Inspect(s, func(q ast.Node) bool {
+						if sel, ok := q.(*ast.SelectorExpr); ok && strings.HasPrefix(sel.Sel.Name, "Kind") {
+							if _, isConst := info.Uses[sel.Sel].(*types.Const); isConst {
+								kinds += sel.Sel.Name + " "
+							}
+						}
+						return true
+					})
+				}
+				r.Check(strings.TrimSpace(kinds) == w.widest, "kinds/openapi-widest-default", "openapi."+w.fn+" without format", cc.Pos(), "builds "+w.widest,
+					fmt.Sprintf("openapi.%s builds %s for a schema without `format`: the narrow kind loses digits of values the schema accepts (3.141592653589793 re-encoded as 3.1415927)", w.fn, strings.TrimSpace(kinds)))
+			}
+			if !hasDefault {
+				n++
+				r.Bad("kinds/openapi-widest-default", "openapi."+w.fn+" without format", sw.Pos(), "the switch on the format has no default clause: a schema without `format` gets no kind")
+			}
+			return true
+		})
+	}
+	r.Count("format switches of the OpenAPI number walkers", n)
+	r.Floor("format switches of the OpenAPI number walkers", 2)
 }
